@@ -7,6 +7,7 @@ CONSTANTS
   MaxFaults = 2
   MaxEnv = 2
   ForeignAt = "name"
+  RenderFails = FALSE
   FailKinds = {"reqloop1", "fatal2"}
 VIEW view
 ACTION_CONSTRAINT Emit
